@@ -43,6 +43,8 @@ def gen_new(rng, ftype, cost=None, nmax=8, minimizer=None):
     cost = cost or rng.choice(COSTS[ftype])
     spec = {"type": ftype, "cost": cost, "minimizer": minimizer or rng.choice(["iminuit", "iminuit", "scipy"]), "dea": rng.choice(["nonlinear", "nonlinear", "iterative"])}
     poisson = cost in POISSON_LIKE
+    spec["tiny"] = (not poisson) and ftype in ("xy", "indexed") and rng.random() < 0.12  # uncertainties of order 1e-5 (units!)
+    crossing = (not poisson) and rng.random() < 0.3  # data / model values of both signs
     if ftype == "xy":
         n = rng.randint(2, nmax)
         mk = rng.choice(["linear", "quadratic", "expo", "quadratic", "linear"] if poisson else ["linear", "quadratic", "expo", "sine", "recip"])
@@ -50,6 +52,9 @@ def gen_new(rng, ftype, cost=None, nmax=8, minimizer=None):
         # kafe2 applies the Poisson data check to the whole (x, y) array of an xy fit: x must be a non-negative integer too
         xs = sorted(rng.sample([float(i) for i in range(0, 9)], n)) if poisson else sorted(rng.sample([0.5 * i for i in range(1, 14)], n))
         ptrue = [_round(v * rng.choice([0.8, 1.0, 1.2])) for v in dflt]
+        if crossing and mk in ("linear", "quadratic", "sine", "recip"):
+            ym0 = f(np.array(xs), *ptrue)
+            ptrue[-1] = _round(ptrue[-1] - float(np.median(ym0)) - 0.37)  # offset parameter: values cross zero, none is exactly zero
         ym = f(np.array(xs), *ptrue)
         if poisson:
             ys = [float(max(0, int(round(v * 3 + rng.choice([-1, 0, 0, 1, 2]))))) for v in ym]
@@ -62,6 +67,8 @@ def gen_new(rng, ftype, cost=None, nmax=8, minimizer=None):
         mk = rng.choice(["affine", "power", "three"])
         f, names, dflt, pure = userlib.make_indexed(n, mk)
         ptrue = [_round(v * rng.choice([0.8, 1.0, 1.2])) for v in dflt]
+        if crossing and mk in ("affine", "three"):
+            ptrue[-1] = _round(ptrue[-1] - float(np.median(pure(*ptrue))) - 0.37)
         ym = pure(*ptrue)
         if poisson:
             ys = [float(max(0, int(round(v + rng.choice([-1, 0, 0, 1, 2]))))) for v in ym]
@@ -118,8 +125,10 @@ def size_of(spec):
     return len(spec["d"])
 
 
-def gen_errval(rng, n, rel):
+def gen_errval(rng, n, rel, tiny=False):
     base = [0.02, 0.05, 0.1] if rel else [0.1, 0.2, 0.3, 0.5]
+    if tiny:
+        base = [2e-5, 5e-5, 1e-5] if not rel else [1e-5, 2e-5]
     if rng.random() < 0.45:
         return float(rng.choice(base))
     return [float(rng.choice(base)) for _ in range(n)]
@@ -146,19 +155,20 @@ def gen_source(rng, spec, idx, allow_model=True, force=None):
         axis = force.get("axis", axis)
     if kind == "matrix" and ref == "model" and rel:
         rel = False  # documented NotImplementedError in kafe2
+    tiny = bool(spec.get("tiny"))
     if kind == "simple":
-        return ["add_error", {"axis": axis, "err": gen_errval(rng, n, rel), "corr": rng.choice([0.0, 0.0, 0.0, 0.3, 1.0, 0.6]), "rel": rel, "ref": ref, "name": name, "via": via}]
+        return ["add_error", {"axis": axis, "err": gen_errval(rng, n, rel, tiny), "corr": rng.choice([0.0, 0.0, 0.0, 0.3, 1.0, 0.6]), "rel": rel, "ref": ref, "name": name, "via": via}]
     if rng.random() < 0.5:
         k = rng.randint(1, n)
         B = np.array([[rng.choice([-0.2, -0.1, 0.0, 0.1, 0.2, 0.05]) for _ in range(k)] for _ in range(n)])
-        sc = 0.2 if rel else 1.0
+        sc = (0.2 if rel else 1.0) * (1e-9 if tiny else 1.0)
         M = (B.dot(B.T) + np.diag([rng.choice([0.01, 0.02, 0.04]) for _ in range(n)])) * sc
         M = 0.5 * (M + M.T)
-        return ["add_matrix_error", {"axis": axis, "mtype": "cov", "mat": np.round(M, 6).tolist(), "err": None, "rel": rel, "ref": ref, "name": name, "via": via}]
+        return ["add_matrix_error", {"axis": axis, "mtype": "cov", "mat": (M if tiny else np.round(M, 6)).tolist(), "err": None, "rel": rel, "ref": ref, "name": name, "via": via}]
     c = rng.choice([0.0, 0.2, 0.5, 0.8])
     M = np.full((n, n), c)
     np.fill_diagonal(M, 1.0)
-    ev = gen_errval(rng, n, rel)
+    ev = gen_errval(rng, n, rel, tiny)
     if not isinstance(ev, list):
         ev = [ev] * n
     return ["add_matrix_error", {"axis": axis, "mtype": "cor", "mat": M.tolist(), "err": ev, "rel": rel, "ref": ref, "name": name, "via": via}]
